@@ -56,7 +56,7 @@ def ro_queries(ctx, seed):
         except Exception:
             pass
     # atoms on a dedicated vector
-    xa = m.dvar(3); xa_val = r.choice([0.5, 1.0, 2.0, -1.0, 1.5], 3)
+    xa = m.dvar(3); xa_val = r.choice([0.5, 1.0, 2.0, -1.0, 1.5, -3.0, -2.5], 3)      # the largest magnitude may sit on a negative entry
     env.vars.append((xa, xa_val, 'dec'))
     wv = m.dvar(); w_val = float(r.choice([-1.0, 0.5, 2.0])); env.vars.append((wv, np.array(w_val), 'dec'))
     atoms = []
@@ -118,6 +118,16 @@ def ro_queries(ctx, seed):
             q(ctx, 'RoAffine.__call__', dict(case0, expr=n.desc), lambda n=n: n.e(*assigns) if not hasattr(n.e, 'to_affine') or True else None, n.v, call_expr=True)
         else:
             q(ctx, 'Affine.__call__', dict(case0, expr=n.desc), lambda n=n: (n.e.to_affine() if hasattr(n.e, 'to_affine') else n.e)(), n.v)
+    # realisations that broadcast against the random array (a column, a row, a number), as NumPy would
+    if env.zb_val.ndim == 2 and min(env.zb_val.shape) > 1:
+        others = [z.assign(val) for z, val, _ in env.z if z is not env.zb]
+        n_, m_ = env.zb_val.shape
+        for what, given in (('column', r.integers(-2, 3, (n_, 1)).astype(float)), ('row', r.integers(-2, 3, (m_,)).astype(float)),
+                            ('number', float(r.integers(-2, 3)))):
+            full = np.broadcast_to(np.asarray(given, dtype=float), env.zb_val.shape)
+            q(ctx, 'RoAffine.__call__(broadcast realisation)', dict(case0, given=what, shape=list(env.zb_val.shape)),
+              lambda given=given: ((env.xb * env.zb).sum() + env.xb.sum())(env.zb.assign(given), *others),
+              float((env.xb_val * full).sum() + env.xb_val.sum()), call_expr=True)
     # atoms
     for name, ops, e, ref in atoms:
         q(ctx, 'Convex.__call__:' + name, dict(case0, atom=name, ops=ops), lambda e=e: e(), ref, tol=1e-9)
